@@ -111,6 +111,13 @@ impl Outcome {
     pub fn violated(&self) -> bool {
         matches!(self.verdict, Verdict::Violation { .. })
     }
+    /// the message of the violation, if any
+    pub fn detail(&self) -> String {
+        match &self.verdict {
+            Verdict::Violation { message, .. } => message.clone(),
+            _ => String::new(),
+        }
+    }
     pub fn signature(&self, prop: &str) -> Option<String> {
         match &self.verdict {
             Verdict::Violation { rule, manifestation, .. } => Some(format!("{prop}/{rule}/{manifestation}")),
